@@ -29,3 +29,9 @@ Qed.
 Print Assumptions C04_block_layer_total.
 Print Assumptions parseBlocks_blank_prefix.
 Print Assumptions parseStream_eq_small.
+
+(* C01: the tiling statement of Props.v, for every input (Tiling.C01_of_total + totality of the block layer). *)
+Require Props Tiling.
+Theorem C01_tiling : Props.C01_statement.
+Proof. exact (Tiling.C01_of_total Total.parseBlocks_total). Qed.
+Print Assumptions C01_tiling.
